@@ -110,4 +110,33 @@ PROPS = {
         assumptions=["winnow 0.6.1 combinator semantics are transcribed by hand (Raw layer) and tied by the differential run",
                      "CHRONOBOX_NAMES is hand-copied into the model (4 strings; checked by the board-id generator)"],
     ),
+    "C18": dict(
+        lean_modules=["AlphaG.Props.C18", "AlphaG.Generated.DriftTablesOk"],
+        required_theorems=["AlphaG.Drift." + t for t in [
+            "lookup_ok_iff", "lookup_err_z", "lookup_err_t", "lookup_total", "bracket_ok", "radius_in_range",
+            "radius_antitone", "lookup_even", "lookup_even_generic", "knot_exact", "lorentz_range", "phi_eq",
+            "phi_eq_generic", "lipschitz", "step_bound_of_table", "step_bound_of_intervals",
+            "generated_tables_ok", "step_bound_partial", "step_exceptions_known"]],
+        harness=[("c18", ["dev", "release"])],
+        level_text="Lean theorems for every table satisfying TablesOk over any linear ordered field (ok iff in range with the "
+                   "right error kind, no panic, radius within the tabulated extremes, antitone in t, even in z — also "
+                   "carrier-generic, i.e. bit-for-bit in f64 — exact at knots, Lorentz range, phi = phi - corr, Lipschitz/step "
+                   "bounds), and TablesOk of the 92 shipped slices proved by kernel decision on the exact dyadic values of the "
+                   "f64 bit patterns dumped from the built code on every run. Bit-exact differential check against "
+                   "SpacePoint::try_from at every knot and bound +-1 ulp.",
+        level_note="Partial: theorems are in exact arithmetic; f64 rounding of the interpolation (one multiplication, one "
+                   "division, two additions) is covered by the bit-exact differential run and the oracle, not by a theorem. "
+                   "The 8 ns / 0.5 mm clause is false for the shipped data in 135 listed knot intervals (known finding F5); "
+                   "step_bound_partial proves it outside the generated exception list and step_exceptions_known pins that "
+                   "list to the committed one.",
+        technique="carrier-generic Lean model; ordered-field theorems; kernel decision (decide +kernel) on generated f64 "
+                  "dyadic tables; bit-exact differential correspondence check",
+        design_ref="DESIGN.md section 6, C18",
+        rule="generators: every slice bound +-1 ulp (both signs), every knot time +-1 ulp (stratified in quick, all 92 tables "
+             "x 4 z in thorough), random and ascending runs, NaN/inf/zero/subnormal inputs, space points with random phi, "
+             "8 ns steps over all 48 284 knot intervals; distinct by request line",
+        assumptions=["Float.ofBits (driver) and the exact dyadic value (theorems) read the same generated bit patterns",
+                     "uom quantities are the identity on SI base values"],
+        findings_notes=["step_over_known"],
+    ),
 }
